@@ -172,7 +172,9 @@ def mk_sym(st, tenv: TypeEnv, t, name: str, depth=0) -> V:
     if k == "bytes":
         c = z3.String(st.fresh_name(name))
         st.input_terms[name] = c
-        return VBytes(c)
+        b = VBytes(c)
+        b.arbitrary = True   # bytes from outside: decoding them may raise UnicodeDecodeError
+        return b
     if k == "none":
         return VNone
     if k == "cls":
